@@ -221,6 +221,15 @@ def layout_answer_free(engine, pos, dev, free, role):
             e = ids[idx]
             mx = max(pos[o][0] + engine.footprints.get(o, (1, 1))[0] for o in pos)
             pos[e] = (mx + k, pos[e][1])
+    elif kind == "swap":
+        # exchange the places of two free entities of the same role and footprint (another optimum /
+        # near-optimum of the same model: the solver's choice between them is arbitrary)
+        ids = sorted(e for e in free if role(e) == "mid")
+        i, j = dev[1], dev[2]
+        if i < len(ids) and j < len(ids):
+            a, b = ids[i], ids[j]
+            if engine.footprints.get(a, (1, 1)) == engine.footprints.get(b, (1, 1)):
+                pos[a], pos[b] = pos[b], pos[a]
     elif kind == "hint-grid":
         # 3-spaced grid, row by role: inputs row 0, mids rows, outputs last row
         ins = sorted(e for e in free if role(e) == "in")
